@@ -12,6 +12,13 @@ POOL = ['web', 'Web', 'WEB', 'w b', '', 'ünï', 'a.b', 'x*', 'api', 'Api',
         'Straße', 'ſide']
 
 
+def conflict(o):
+    """the request was refused because another exclusive command was still
+    in progress (nothing is done then)"""
+    return isinstance(o, dict) and o.get('status') == 'error' and \
+        'arbiter is already running' in str(o.get('reason'))
+
+
 def marker_of(name):
     return 'mk_' + ''.join(ch if ch.isalnum() else '_%x_' % ord(ch)
                            for ch in name.lower())
@@ -101,21 +108,31 @@ class C15Episode(Episode):
                         self.viol('removed_watcher_workers_alive',
                                   'rm %r completed, workers %s still alive'
                                   % (nm, live), once=i)
+            elif conflict(o):
+                self.fired['refused_busy'] += 1
             elif key in self.model and not w.outstanding():
                 self.viol('rm_refused', 'rm %r of an existing watcher '
                           'answered %r' % (nm, o), once=i)
             self.settle_and_check(i, 'rm %r' % nm)
         elif kind in ('start', 'stop'):
             nm = name_variant(op['name'], op.get('case'))
-            r = w.call(kind, {'name': nm, 'match': 'simple'}, waiting=True)
+            r = w.call(kind, {'name': nm, 'match': 'simple'},
+                       waiting=not op.get('nowait'))
             self.fired['req:' + kind] += 1
             o = r.reply
             ok = isinstance(o, dict) and o.get('status') == 'ok'
-            if ok != (nm.lower() in self.model):
+            if conflict(o):
+                self.fired['refused_busy'] += 1
+            elif ok != (nm.lower() in self.model):
                 self.viol('name_resolution',
                           '%s %r answered %r, directory has %s'
                           % (kind, nm, o.get('status') if isinstance(o, dict)
                              else o, sorted(self.model)), once=i)
+            if op.get('nowait'):
+                # answered at once: the next request arrives while the
+                # workers are still being started / stopped
+                self.mid_check(i, '%s %r (in progress)' % (kind, nm))
+                return
             self.settle_and_check(i, '%s %r' % (kind, nm))
         elif kind == 'reloadconfig':
             self.write_ini(op['file'])
@@ -268,8 +285,10 @@ class C15(Prop):
             'operation, at quiescence, list / status / stats / numwatchers '
             'are compared with each other and with a reference directory; '
             'case variants must reach the same watcher; removed names must be '
-            'reusable. 40 % of the rm and reloadconfig requests are not waited '
-            'for and the four views are compared with each other while the '
+            'reusable. 40 % of the rm and reloadconfig and 30 % of the start / '
+            'stop requests are not waited for (the next request then meets '
+            'an operation in progress; a refusal "already running" must '
+            'change nothing) and the four views are compared with each other while the '
             'operation is still in progress. non-trivial = at least one add or rm of a name that '
             'collides ignoring case, is empty, or follows a reloadconfig; '
             'distinct = (operation kind, abstract daemon state) hash')
@@ -317,7 +336,8 @@ class C15(Prop):
                 ops.append({'op': 'c15', 'kind': rng.choice(['start',
                                                              'stop']),
                             'name': nm, 'case': rng.choice(
-                                [None, 'upper', 'lower', 'swap'])})
+                                [None, 'upper', 'lower', 'swap']),
+                            'nowait': rng.random() < 0.3})
             else:
                 ops.append({'op': 'c15', 'kind': 'reloadconfig',
                             'file': self.gen_file(rng),
